@@ -302,6 +302,7 @@ inductive LangThis
   | self
   | undef
   | counterpart (g : GoVal)
+  | fresh                               -- `new F(a…)` (§11.2.2, §13.2.2): a newly created object
 
 def langThis : Path → LangThis
   | .valueCall none => .self                     -- probe.call(obj, a…)
@@ -309,10 +310,12 @@ def langThis : Path → LangThis
   | .objectCall => .self                         -- obj.probe(a…)   (§11.2.3: this = base of the reference)
   | .ottoCallNil member => if member then .self else .undef      -- obj.probe(a…) / probe(a…)
   | .ottoCallThis _ g => .counterpart g          -- (src).call(T, a…)
+  | .ottoCallNew _ => .fresh                     -- new src(a…)
 
 /-- §10.4.3 entering function code (non-strict): undefined/null -> global object, primitives -> ToObject -/
 def enterThis (E : Env) : LangThis → Res ThisObs
   | .self => .ok .self
+  | .fresh => .ok .instance
   | .undef => .ok .global
   | .counterpart g => (view E g).bind fun v => match v with
     | .undefined => .ok .global
@@ -326,6 +329,11 @@ def argViews (E : Env) : List GoVal → Res (List View)
 
 def langCall (E : Env) (p : Path) (args : List GoVal) : Res (ThisObs × List View) :=
   (enterThis E (langThis p)).bind fun t => (argViews E args).map fun vs => (t, vs)
+
+/-- the in-language call evaluates the callee ONCE (§11.2.3 step 8 / §11.2.2); its completion – a value or
+    a thrown exception (§12.13, caught here by try/catch) – is the completion of the call expression -/
+def langRun (E : Env) (p : Path) (b : Exit) (args : List GoVal) : Res Run :=
+  (langCall E p args).map fun (t, vs) => ⟨[t], exitOf b (isNewPath p) 1 t vs⟩
 
 /-! ### Deviation regions (decidable predicates over the request; witnesses in Theorems.lean) -/
 namespace Dev
